@@ -1,7 +1,8 @@
 //! C34 — editor analysis never crashes on incomplete code.
 //!
 //! Universe: C04's deviation ≤ 1 neighbourhood (shared enumerator: identity, every prefix, every single-token
-//! deletion / replacement / adjacent swap, every hostile single-char insertion) of the shortest corpus files
+//! deletion / replacement / adjacent swap, every hostile single-char insertion, every identifier replaced by
+//! every other identifier of the file) of the shortest corpus files
 //! × EVERY byte offset 0..=len+1 × {errors(), definition_at, type_at, completions_at} on
 //! `abra_core::check_lsp`. One analysis per text, then all queries; the analysis and each single query are
 //! wrapped in `catch`, so a panic is reported with the query and the offset.
@@ -25,8 +26,10 @@ const PER_BYTE_US: f64 = 12.0;
 const QUICK_BUDGET_CORE_S: f64 = 270.0;
 const THOROUGH_BUDGET_CORE_S: f64 = 5500.0;
 const CHUNK: usize = 300;
-/// hand-written non-ASCII programs that are in the universe of both tiers whatever their length (thorough reaches all five by length)
-const ALWAYS: [&str; 2] = ["hand/accents", "hand/japanese"];
+/// hand-written programs that are in the universe of both tiers whatever their length: two of the non-ASCII programs (thorough
+/// reaches all five by length) and the five tiny programs with default / named arguments, constructors with defaults, a member function
+const ALWAYS: [&str; 7] =
+    ["hand/accents", "hand/japanese", "tiny/default-args", "tiny/named-args", "tiny/struct-defaults", "tiny/enum-defaults", "tiny/member-fn"];
 
 fn files(tier: Tier) -> Vec<usize> {
     tu::pick_files(ALPHA_CORE.len(), CASE_US, PER_BYTE_US, tier.pick(QUICK_BUDGET_CORE_S, THOROUGH_BUDGET_CORE_S), &ALWAYS)
@@ -62,7 +65,9 @@ fn judge(out: &mut UnitOut, origin: &str, desc: &str, text: &str) {
         Err(p) => {
             let what = format!("check_lsp panicked at {}: {} | input {} ({origin}: {desc})", p.site, tu::shorten(&p.msg, 100), tu::shorten(text, 80));
             out.count(&format!("panic check_lsp {}", p.site_key()), 1);
-            out.violation(vec![input_key, p.site_key()], what.clone(), detail(&what, json!([{"query": "check_lsp", "site": p.site, "msg": p.msg}])));
+            let mut keys = vec![input_key, p.site_key()];
+            keys.extend(tu::root_key(&p));
+            out.violation(keys, what.clone(), detail(&what, json!([{"query": "check_lsp", "site": p.site, "msg": p.msg}])));
             out.class("VIOLATION: analysis panicked");
             return;
         }
@@ -170,8 +175,8 @@ impl Prop for C34 {
         let c = tu::corpus();
         let raw: usize = plan(tier).iter().map(|d| d.hi - d.lo).sum();
         format!(
-            "{} of the {} corpus programs = hand/accents, hand/japanese and the shortest files within a cost budget (longest {} bytes; corpus as in C04; thorough reaches all 5 hand-written non-ASCII programs), each with its complete \
-             deviation ≤ 1 neighbourhood (identity, every prefix, every single-token deletion, replacement by each of {} alphabet tokens, insertion of one of {:?} at every char boundary, adjacent-token swap; \
+            "{} of the {} corpus programs = hand/accents, hand/japanese, the five tiny/* programs and the shortest files within a cost budget (longest {} bytes; corpus as in C04; thorough reaches all 5 hand-written non-ASCII programs), each with its complete \
+             deviation ≤ 1 neighbourhood (identity, every prefix, every single-token deletion, replacement by each of {} alphabet tokens, insertion of one of {:?} at every char boundary, adjacent-token swap, replacement of every identifier token by every other identifier of the same file; \
              {} raw mutants, repeated texts skipped and counted); per text one check_lsp analysis, errors(), and definition_at / type_at / completions_at at EVERY byte offset 0..=len+1 \
              (including offsets inside multi-byte chars and one past the end); oracle: no panic in the analysis, in any query, or in dropping the result. \
              Non-trivial = the text has ≥ 2 tokens that are not blanks/comments (distinct by text hash)",
